@@ -44,14 +44,18 @@ Definition l_set_closed (a : p_a) (b : bool) : p_a :=
 Definition l_set_cut (a : p_a) (b : bool) : p_a :=
   Build_p_a (a_r a) (a_w a) (a_pend a) (a_closed a) (a_on a) (a_regr a) (a_regw a) b (a_log a).
 
+(* of a callback's script only the actions aimed at d itself concern d *)
+Definition p_act_self (x : nat) (a : p_act) : bool := p_act_target a =? x.
+Definition l_own (l : list p_act) : list p_act := filter (p_act_self d) l.
+
 Definition l_invoke (n : nat) (a : p_a) (k : p_cbk) : p_a :=
   match k with
   | PKRead =>
     let bs := firstn (pc_rk dc) (a_pend a) in
     let a1 := l_set_pend a (skipn (pc_rk dc) (a_pend a)) in
-    l_acts (l_set_log a1 (Build_p_ev n d PKRead bs (a_regr a) :: a_log a1)) (pc_rs dc)
-  | PKWrite => l_acts (l_set_log a (Build_p_ev n d PKWrite [] (a_regw a) :: a_log a)) (pc_ws dc)
-  | PKClose => l_acts (l_set_log a (Build_p_ev n d PKClose (a_pend a) (a_regr a) :: a_log a)) (pc_cs dc)
+    l_acts (l_set_log a1 (Build_p_ev n d PKRead bs (a_regr a) :: a_log a1)) (l_own (pc_rs dc))
+  | PKWrite => l_acts (l_set_log a (Build_p_ev n d PKWrite [] (a_regw a) :: a_log a)) (l_own (pc_ws dc))
+  | PKClose => l_acts (l_set_log a (Build_p_ev n d PKClose (a_pend a) (a_regr a) :: a_log a)) (l_own (pc_cs dc))
   end.
 
 Definition l_has_data (a : p_a) : bool := match a_pend a with [] => false | _ => true end.
@@ -87,7 +91,6 @@ Fixpoint l_run (n : nat) (a : p_a) (ops : list p_op) : p_a :=
 Definition l_init : p_a := Build_p_a false false [] false conn false false false [].
 
 (* ---------- guards, as boolean functions of the configuration / the operations ---------- *)
-Definition p_act_self (x : nat) (a : p_act) : bool := p_act_target a =? x.
 Definition p_is_addw (a : p_act) : bool := match a with PAAddW _ => true | _ => false end.
 Definition p_is_remw (a : p_act) : bool := match a with PARemW _ => true | _ => false end.
 Definition p_is_remr (a : p_act) : bool := match a with PARemR _ => true | _ => false end.
@@ -103,6 +106,21 @@ Definition p_dcfg_ok (c : p_cfg) (x : nat) : bool :=
   negb (pc_doc dc) &&                                                       (* G2 *)
   (p_is_sock c x || negb (existsb p_is_addw (pc_rs dc ++ pc_ws dc ++ pc_cs dc))) &&   (* G3 *)
   p_script_ok (pc_rs dc) && p_script_ok (pc_cs dc).                         (* G4 *)
+(* the guard of c16_backends_agree_per_descriptor, for ONE descriptor d: no OTHER descriptor's callback aims an
+   action at d (d's own callbacks may add/remove anything); d is not delete_on_close; d's own scripts register d
+   for writing only if d is a socket; the part of d's read / close script that is aimed at d satisfies G4 *)
+Definition p_d_ok (c : p_cfg) (d : nat) : bool :=
+  let dc := p_get c d in
+  forallb (fun x => (x =? d) || forallb (fun a => negb (p_act_target a =? d))
+                                   (pc_rs (p_get c x) ++ pc_ws (p_get c x) ++ pc_cs (p_get c x)))
+          (seq 0 (length c)) &&
+  negb (pc_doc dc) &&
+  (p_is_sock c d || negb (existsb p_is_addw (filter (fun a => p_act_target a =? d) (pc_rs dc ++ pc_ws dc ++ pc_cs dc)))) &&
+  p_script_ok (filter (fun a => p_act_target a =? d) (pc_rs dc)) &&
+  p_script_ok (filter (fun a => p_act_target a =? d) (pc_cs dc)).
+Definition p_ops_ok_d (c : p_cfg) (d : nat) (ops : list p_op) : bool :=
+  forallb (fun o => match o with POAddW x => negb (x =? d) || p_is_sock c d | _ => true end) ops.
+
 Definition p_cfg_ok (c : p_cfg) : bool := forallb (p_dcfg_ok c) (seq 0 (length c)).
 Definition p_op_ok3 (c : p_cfg) (o : p_op) : bool :=
   match o with
